@@ -82,6 +82,14 @@ func genC12(t *rapid.T) c12Scenario {
 		sc.CClose = append(sc.CClose, rapid.SampledFrom([]int{0, 1, 1, 2}).Draw(t, "cclose"))
 		sc.Readers = append(sc.Readers, rapid.IntRange(0, 2).Draw(t, "reader") == 0)
 	}
+	if sc.Accepted > 0 && rapid.IntRange(0, 7).Draw(t, "reclose") == 0 {
+		// connection 0 is closed twice while its remote sends again and the new connection is
+		// accepted: "Close is idempotent" - the second Close must not touch the successor
+		sc.CClose[0], sc.SendOld = 2, true
+		if sc.Accept == 0 {
+			sc.Accept = 1
+		}
+	}
 	if rapid.IntRange(0, 3).Draw(t, "smallBacklog") == 0 {
 		sc.Backlog = rapid.IntRange(1, 2).Draw(t, "backlog")
 		sc.Unaccepted = rapid.IntRange(0, 4).Draw(t, "unacceptedMany")
